@@ -97,6 +97,13 @@ def create(kind: str, prep: str) -> Ctx:
             for x, y, z in ((1, 2, 3), (4, 5, 6)):
                 s.add_data_point(x, y, z)
             ct = XL_CHART_TYPE.BUBBLE
+        elif kind == "chart_date":
+            import datetime
+            cd = CategoryChartData()
+            cd.categories = [datetime.date(2024, 1, 31), datetime.date(2024, 2, 29), datetime.date(2024, 3, 31)]
+            cd.add_series("Q1", (1.5, 2, 3))
+            cd.add_series("Q2", (4, None, 6))
+            ct = XL_CHART_TYPE.LINE_MARKERS
         else:
             cd = CategoryChartData()
             cd.categories = ["East", "West", "Mid"]
